@@ -217,7 +217,6 @@ Proof.
         rewrite reduce_single by discriminate; eauto).
       simpl. destruct t; eauto.
     - injection ED as <-. destruct (Nat.eqb (nvgl f) (nl f + 1)); [|discriminate]. inv E. simpl. rewrite ET.
-      destruct (Nat.eqb (rfun_len fn (nl f)) 1) eqn:E1; [|discriminate]. apply Nat.eqb_eq in E1. rewrite E1.
       repeat split; eauto.
     - inv E. simpl. rewrite ET. repeat split; eauto.
     - inv E. simpl. rewrite ET. repeat split; eauto. }
@@ -258,6 +257,53 @@ Proof.
     rewrite Nat.add_0_r, <- H1, Nat.eqb_refl. simpl. unfold pair_eqb; simpl. rewrite !Z.eqb_refl. reflexivity.
 Qed.
 
+(* ---- renameVariable (repaired) ---------------------------------------------------------------------------------- *)
+Lemma In_dedup x l : In x l -> In x (dedup l).
+Proof.
+  induction l as [|y l IH]; simpl; intros H; [contradiction|].
+  destruct (Nat.eqb x y) eqn:E.
+  - apply Nat.eqb_eq in E. subst. left; reflexivity.
+  - destruct H as [H|H]; [subst; rewrite Nat.eqb_refl in E; discriminate|].
+    right. apply filter_In. split; [apply IH; exact H|]. rewrite E. reflexivity.
+Qed.
+
+Lemma rename_coherent f o n g :
+  coherentb f = true -> impl_rename f o n = Ok g -> coherentb g = true.
+Proof.
+  intros C H. apply coherent_elim in C as [R T]. unfold impl_rename in H.
+  destruct (negb (memb o (dvars f)) || memb n (dvars f) || memb n (varlist f)) eqn:G; [discriminate|].
+  apply orb_false_iff in G as [G G3]. apply orb_false_iff in G as [G1 G2]. apply negb_false_iff in G1.
+  destruct (tflag_part_elim _ T) as (s1 & r0 & t & ET & ES & ER). rewrite ET in H.
+  destruct (negb (Nat.eqb s1 (vardim f))); [discriminate|].
+  pose proof (coh_rest_elim _ R) as (H1 & H2 & H3 & H4 & H5 & H6 & H7 & H8 & H9).
+  assert (NO : Nat.eqb n o = false).
+  { destruct (Nat.eqb n o) eqn:E; [|reflexivity]. apply Nat.eqb_eq in E. subst. congruence. }
+  set (f1 := add2varlist f (dvars f)) in *.
+  set (f2 := add2varlist (set_dvars f1 (dvars f1 ++ [n])) [n]) in *.
+  set (f3 := set_dvars f2 (filter (fun k => negb (Nat.eqb k o)) (dvars f2))) in *.
+  set (vl := dedup (filter (fun k => memb k (dvars f3)) (map (fun k => if Nat.eqb k o then n else k) (varlist f3)))) in *.
+  assert (D3 : In n (dvars f3)).
+  { unfold f3; simpl. apply filter_In. split; [apply in_or_app; right; left; reflexivity|]. rewrite NO. reflexivity. }
+  assert (V3 : In n (varlist f3)).
+  { unfold f3, f2; simpl.
+    match goal with |- context [if ?c then _ else _] => destruct c eqn:E end.
+    - apply in_or_app; right. left; reflexivity.
+    - apply in_or_app; left. apply negb_false_iff in E. apply (proj1 (memb_In _ _)) in E. unfold listed_existing in E.
+      apply (proj1 (filter_In _ _ _)) in E. destruct E as [E _]. exact E. }
+  assert (VL : In n vl).
+  { unfold vl. apply In_dedup. apply filter_In. split; [|apply memb_In; exact D3].
+    apply in_map_iff. exists n. rewrite NO. auto. }
+  eapply updatemeta_coherent; [exact H| | |].
+  - unfold newvl; simpl. fold vl. destruct vl as [|v0 vt] eqn:EV; [contradiction|]. rewrite <- EV.
+    unfold listed_existing; simpl. fold vl. intros Hn.
+    assert (In n (filter (fun k => memb k (dvars f3)) vl)).
+    { apply filter_In. split; [rewrite EV; exact VL|apply memb_In; exact D3]. }
+    simpl in Hn. unfold f3 in H0; simpl in H0. rewrite Hn in H0. contradiction.
+  - simpl. exact H8.
+  - unfold tflag_keep_ok; simpl. rewrite ET, ER.
+    match goal with |- (if ?c then _ else _) = true => destruct c; [|reflexivity] end. apply pair_eqb_same.
+Qed.
+
 (* ---- one step / sequences ------------------------------------------------------------------------------------------ *)
 Theorem istep_coherent f o g :
   coherentb f = true -> proved_op o = true -> iop_region f o = 0%nat -> istep f o = Ok g -> coherentb g = true.
@@ -265,6 +311,7 @@ Proof.
   intros C P Rg H. destruct o; try discriminate P; simpl in H.
   - eapply copy_coherent; eauto.
   - eapply subset_coherent; eauto.
+  - eapply rename_coherent; eauto.
   - eapply slice_coherent; eauto.
   - eapply apply_coherent; eauto.
   - eapply stack_coherent; eauto.
